@@ -105,6 +105,28 @@ pub fn ranges(a: &Args) -> Report {
     for _ in 0..6 {
         spans.push(rng.below(max_span as u64) as i64);
     }
+    // high latitudes across the edge of the no-twilight season with the library's default parameters: the
+    // per-day result must not depend on what was computed for earlier days of the range
+    let hl = [(58.3, -134.4, -9., NaiveDate::from_ymd_opt(2022, 7, 10).unwrap(), 60i64), (-54.8, -68.3, -3., NaiveDate::from_ymd_opt(2023, 1, 15).unwrap(), 60),
+              (65.0, 25.5, 2., NaiveDate::from_ymd_opt(2024, 4, 1).unwrap(), 45), (52.0, 0., 0., NaiveDate::from_ymd_opt(2023, 5, 10).unwrap(), 40)];
+    for (lat, lon, gmt, s, span) in hl.iter() {
+        for m in [Method::None, Method::Isna, Method::Mwl, Method::UmmAlQurra] {
+            let l = Location { coords: Coordinates::new(Latitude::try_from(*lat).unwrap(), Longitude::try_from(*lon).unwrap(), Elevation::try_from(0.).unwrap()), gmt: Gmt::try_from(*gmt).unwrap() };
+            let p = Params::new(m);
+            let e = *s + Duration::days(*span - 1);
+            rep.evaluations += 1;
+            let got = prayer_times_dt_rng(&p, l, &DateRange::from(*s..=e));
+            let mut d = *s;
+            for _ in 0..*span {
+                if got.get(&d) != Some(&prayer_times_dt(&p, l, d, None)) {
+                    rep.fail(json!({"what": "prayer_times_dt_rng", "why": "entry differs from prayer_times_dt", "date": d.to_string(), "lat": lat, "method": format!("{:?}", m), "range_start": s.to_string()}));
+                    break;
+                }
+                d = d + Duration::days(1);
+            }
+            rep.distinct_nontrivial += 1;
+        }
+    }
     for (k, span) in spans.iter().enumerate() {
         let s = starts[k % starts.len()];
         let e = s + Duration::days(*span - 1);
